@@ -38,9 +38,9 @@ static int gen_c14(cs_t *cs, void *k, const runcfg_t *cfg) {
     int i, s;
     if (cfg->row_filter) {
         if (!strcmp(cfg->row_filter, "strtok_s")) c->wide = 0;
-        else if (!strcmp(cfg->row_filter, "wcstok_s")) c->wide = 1;
+        else if (!strcmp(cfg->row_filter, "wcstok_s")) c->wide = 1 + (int)cs_range(cs, 0, 1);
         else return 0;
-    } else c->wide = (int)cs_range(cs, 0, 1);
+    } else c->wide = (int)cs_range(cs, 0, 2); /* 2: wcstok_s over the look-alike alphabet */
     if (cfg->phase == 0) {
         int dc = (int)cs_range(cs, 0, 6);
         uint8_t e[T_NFILL];
@@ -95,7 +95,10 @@ static int gen_c14(cs_t *cs, void *k, const runcfg_t *cfg) {
 static uint32_t sym_char(int wide, int s) {
     static const uint32_t nar[5] = {'a', ',', 0xE9 /* a high-bit byte inside tokens */, 0xA0 /* a high-bit delimiter: char is signed here */, '-'};
     static const uint32_t wid[5] = {0x0100, ',', 'b', 0x3B00, 0x2D2D};
-    if (s < SY_FILL0) return wide ? wid[s] : nar[s];
+    /* second wide alphabet: the non-delimiters are TRUNCATION LOOK-ALIKES of the delimiters (same low 16 bits, same low 8 bits):
+     * a comparison made through a narrower type takes them for delimiters */
+    static const uint32_t wid2[5] = {0x1002C /* low 16 bits: ',' */, ',', 0x012C /* low 8 bits: ',' */, 0x3B00, 0x13B00 /* low 16 bits: the other delimiter */};
+    if (s < SY_FILL0) return wide == 2 ? wid2[s] : wide ? wid[s] : nar[s];
     return (wide ? 0x4100u : (uint32_t)'A') + (uint32_t)(s - SY_FILL0);
 }
 static char sym_vis(int s) { static const char v[5] = {'a', ',', 'b', ';', '-'}; return s < SY_FILL0 ? v[s] : (char)('A' + (s - SY_FILL0)); }
